@@ -209,9 +209,23 @@ func ScriptString(st []Step) string {
 // op (words) and returns the reply line. A panic inside step yields "panic" and the rest
 // of the case is answered "dead" - exactly the convention of the Lean drivers.
 // oracle failures are collected by the driver itself via Fail().
+// Die ends the process after a failure that leaves the implementation in a state the driver cannot recover from (a
+// goroutine of the implementation that never returns): the replies so far are flushed, the reply of the current op is
+// printed, and the exit code 4 tells the runner to isolate the case (lib/vlib.py run_cases).
+func Die(reply string) {
+	if execOut != nil {
+		fmt.Fprintln(execOut, reply)
+		execOut.Flush()
+	}
+	os.Exit(4)
+}
+
+var execOut *bufio.Writer
+
 func Exec(newCase func(id string), step func(ws []string) string) {
 	in := bufio.NewReaderSize(os.Stdin, 1<<20)
 	out := bufio.NewWriterSize(os.Stdout, 1<<20)
+	execOut = out
 	defer out.Flush()
 	alive := false
 	for {
